@@ -395,6 +395,12 @@ func genMultiQ(r *rand.Rand, i int) *Program {
 	for q := 0; q < nq; q++ {
 		p.Queues = append(p.Queues, ks[r.Intn(len(ks))])
 	}
+	if r.Intn(4) == 0 {
+		// one queue of the worker's own first, a distributed queue after it (it registers through a path of its own)
+		// (one distributed queue: all distributed queues of a program share one adapter)
+		nq = 2
+		p.Queues = []string{qkind(r), []string{"dist", "distprio"}[r.Intn(2)]}
+	}
 	var th []Op
 	n := 2 + r.Intn(8)
 	for j := 0; j < n; j++ {
